@@ -298,7 +298,7 @@ func init() {
 	pure("(time.Time).Before", func(x *X, s *State, a []Val) Val { return bv(sApp("<", tm(a[0]), tm(a[1]))) })
 	pure("(time.Time).Equal", func(x *X, s *State, a []Val) Val { return bv(sEq(tm(a[0]), tm(a[1]))) })
 	pure("(time.Time).IsZero", func(x *X, s *State, a []Val) Val { return bv(sEq(tm(a[0]), "TIME_ZERO")) })
-	pure("(time.Time).UnixNano", func(x *X, s *State, a []Val) Val { return iv(sApp("unixNano", tm(a[0]))) })
+	pure("(time.Time).UnixNano", func(x *X, s *State, a []Val) Val { return a[0] }) // times are modelled as their Unix nanoseconds (A6)
 	pure("(time.Time).String", func(x *X, s *State, a []Val) Val { return Sc{T: sApp("sprintI", tm(a[0])), Sort: "Str"} })
 	pure("(time.Time).UTC", func(x *X, s *State, a []Val) Val { return a[0] })
 	pure("(time.Time).AddDate", func(x *X, s *State, a []Val) Val {
